@@ -40,7 +40,7 @@ ASSUMPTIONS = [
     "nothing is asserted about the bytes a failed or crashed save leaves behind",
 ]
 COMPONENTS = {"real": ["partitura.io.exportmatch", "partitura.io.importmatch", "partitura.io.matchfile_base / matchlines_v0 / matchlines_v1 / matchfile_utils", "musicanalysis.performance_codec (time maps, matched notes)", "score.add_measures/tie_notes/find_tuplets"], "stub": ["raw file layer (SimFS)", "line-level channel disturbances applied by the harness between writer and reader"]}
-PROBES = ("second_generation", "second_generation_after_edit", "auto_unfold", "line_duplicated", "blank_lines", "conflicting_deletion", "conflicting_insertion", "ornament_entry", "deletion_entry", "insertion_entry", "pickup", "timesig_change", "ties", "grace", "pedal_lines", "fault_in_flight", "fixture_v0", "fixture_v1", "reader_on_torn_file")
+PROBES = ("second_generation", "controls_from_midi_file", "second_generation_after_edit", "auto_unfold", "line_duplicated", "blank_lines", "conflicting_deletion", "conflicting_insertion", "ornament_entry", "deletion_entry", "insertion_entry", "pickup", "timesig_change", "ties", "grace", "pedal_lines", "fault_in_flight", "fixture_v0", "fixture_v1", "reader_on_torn_file")
 
 FIXTURE_DIRS = ("/repo/tests/data/match",)
 
@@ -181,7 +181,7 @@ def generate(seed, tier, cfg):
             faults.append({"kind": kind, "path": "*", "at": f.choice((0, 0, 1, 2, 3)) if kind in ("F2", "F4", "F6") else 0, "errno": err, "op_index": oi, "frac": (round(f.random(), 3) if kind in ("F2", "F4", "F6") and f.random() < 0.5 else None)})
     if k.random() < 0.4:
         same = k.random() < 0.4
-        ops.append({"k": "regen", "ppq": "same" if same else k.choice((480, 960, 100, 96, 384)), "mpq": "same" if same else k.choice((500000, 600000, 454545, 750000)), "shift": k.choice((0.0, 0.25, 1.5, 0.013)) if same or k.random() < 0.3 else 0.0})
+        ops.append({"k": "regen", "ppq": "same" if same else k.choice((480, 960, 100, 96, 384)), "mpq": "same" if same else k.choice((500000, 600000, 454545, 750000)), "shift": k.choice((0.0, 0.25, 1.5, 0.013)) if same or k.random() < 0.3 else 0.0, "midi_controls": k.choice((None, None, 480, 96, 960))})
     return {"mode": "roundtrip", "workload": asc, "perf_seed": st.workload.randrange(1 << 30), "ops": ops, "faults": faults, "knobs": {"ppq": k.choice((480, 480, 960, 100, 96)), "mpq": k.choice((500000, 500000, 600000, 454545)), "chunk": k.choice((0, 0, 7, 64, 1)), "auto_unfold": k.random() < 0.3}}
 
 
@@ -535,6 +535,22 @@ def execute(case, keep_log=False):
                         for n in pp1.notes:
                             n["note_off"] = n["note_off"] + op["shift"]
                             n["note_on"] = n["note_on"] + op["shift"]
+                    if op.get("midi_controls") and pp1.controls:
+                        # the pedal events come from a MIDI file (its reader stores the tick of that file's clock on
+                        # every control): written to a match file with another clock they keep their time in seconds
+                        from partitura.io.exportmidi import save_performance_midi
+                        from partitura.io.importmidi import load_performance_midi
+
+                        try:
+                            save_performance_midi(pp1, "/simfs/c.mid", ppq=op["midi_controls"], mpq=500000)
+                            ppm = load_performance_midi("/simfs/c.mid").performedparts[0]
+                            pp1.controls = [dict(c) for c in ppm.controls]
+                            res.probe("controls_from_midi_file")
+                        except Exception as e:
+                            import traceback
+
+                            if not any("/partitura/" in f.filename for f in traceback.extract_tb(e.__traceback__)):
+                                raise
                     want2 = describe(pp1, al1, None, ppq=ppq2, mpq=mpq2)
                     path2 = "/simfs/b.match"
                     try:
